@@ -621,6 +621,7 @@ def _dev_id(cfg: Cfg, dev: typing.Sequence[typing.Sequence[int]]) -> str:
 
 def run(ctx: Ctx) -> int:
     scratch = str(ctx.scratch)
+    stamp = permset.tree_stamp()
     cfgs = all_cfgs()
     core = [c for c in cfgs if c in CORE_CFGS]
     if len(core) != len(CORE_CFGS):
@@ -637,6 +638,7 @@ def run(ctx: Ctx) -> int:
         else:
             tuples = [t for t in all_tuples if ctx.in_slice(cfg_id(cfg) + "|ambient|" + "/".join(t))]
         jobs.append({"cfg": cfg, "tuples": tuples, "scratch": scratch})
+    jobs.sort(key=lambda j: -len(j["tuples"]))  # long jobs first (stable, deterministic)
     res1 = ctx.pool_map(_ambient_job, jobs)
     executions = 0
     digests: typing.Set[str] = set()
@@ -697,9 +699,12 @@ def run(ctx: Ctx) -> int:
                 trace = [permset.ChoicePoint(*cp) for cp in one["trace"]]
                 dev = tuple(tuple(d) for d in one["dev"])
                 expect = permset.arities(trace)
+                two_dev_space += sum(cp.arity - 1 for cp in trace[dev[-1][0] + 1 :])
+                # core configurations: every first deviation; others: first deviation from the restricted family too
+                if cfg not in core and dev[0][2] not in permset.light_alternatives(trace[dev[0][0]].n):
+                    continue
                 for child in permset.expand(dev, trace, light=True):
                     specs.append({"dev": [list(d) for d in child], "expect": expect[: child[-1][0] + 1]})
-                two_dev_space += sum(cp.arity - 1 for cp in trace[dev[-1][0] + 1 :])
             for part in _shard(specs, 30):
                 jobs.append({"cfg": cfg, "specs": part, "ref_trace": ref_traces[cfg], "scratch": scratch})
         res3 = ctx.pool_map(_sched_job, jobs)
@@ -710,8 +715,9 @@ def run(ctx: Ctx) -> int:
             order_changed += r["order_changed"]
             digests |= set(r["digests"])
         ctx.cap(
-            "two-deviation level: the second deviation is restricted to adjacent transpositions + reversal "
-            f"({two_dev_run} of {two_dev_space} two-deviation schedules)"
+            "two-deviation level: the second deviation is restricted to adjacent transpositions + reversal; outside the "
+            f"{len(core)} core configurations the first one as well ({two_dev_run} of {two_dev_space} two-deviation "
+            "schedules run)"
         )
     if capped_sites:
         ctx.cap("sets with more than 4 elements offer 7..n+2 alternatives instead of n!: " + "; ".join(sorted(capped_sites)))
@@ -739,9 +745,12 @@ def run(ctx: Ctx) -> int:
     if order_changed == 0:
         raise HarnessError("no deviating schedule changed the generation order: the permuting set has no effect")
 
+    permset.assert_tree_unchanged(stamp)
     _confirm(ctx)
+    permset.assert_tree_unchanged(stamp)
 
     ctx.stats.update(
+        cpu_seconds=round(sum(os.times()[:4]), 1),
         configurations=len(cfgs),
         ambient_tuples_run=ambient_run,
         ambient_tuples_space=ambient_space,
@@ -766,13 +775,14 @@ def run(ctx: Ctx) -> int:
     ]
     nontrivial = ambient_run + one_dev_run + two_dev_run + (seed_runs - len(res4))
     cov = {
-        "states": len(digests) + len(cfgs),
+        "states": len(cfgs) + ambient_run + one_dev_run + two_dev_run + seed_runs,
         "transitions": executions,
         "traces_validated_against_impl": executions,
         "evaluations": executions,
         "distinct_nontrivial": nontrivial,
         "distinct_outcomes": len(digests),
-        "rule": "state = (configuration, ambient tuple, choice sequence); every transition is one real generator run; "
+        "rule": "state = (configuration, ambient tuple, choice sequence) - counted once each; transitions = real "
+        "generator runs (reference runs are repeated once per shard); "
         "non-trivial = distinct executions that differ from their configuration's reference run in the schedule "
         "(>=1 deviation) or in >=1 ambient coordinate (reference runs themselves are not counted); "
         "distinct_outcomes = distinct output trees (sha256 of path->bytes)",
